@@ -22,7 +22,7 @@ func init() {
 		RaceThoroughOnly: true,
 		Rule: "data sets built by generated programs under configurations that spread versions over active/immutable memtables, several SSTables and multi-block SSTables (log retired so that " +
 			"tables are really read); at each checkpoint a battery of queries is compared with the sorted model: full scan, range scans with bounds from {nil, existing key, key+-epsilon, before " +
-			"first, after last, start>=end}, Seek(t)+Next run on full and bounded iterators, SeekToLast, prefix/suffix/prefix+suffix filters as the service builds them, and the same through " +
+			"first, after last, start>=end}, Seek(t)+Next run on full and bounded iterators (fresh, and already positioned by SeekToFirst + 0-3 Next), SeekToLast, prefix/suffix/prefix+suffix filters as the service builds them, and the same through " +
 			"read-write transaction iterators with uncommitted puts/deletes overlaid. Every 5th case is concurrent: scanners run while writers touch a disjoint key class and a maintenance goroutine " +
 			"flushes/compacts; each scan must be strictly ascending, duplicate-free and contain every stable key with its value. " +
 			"distinct = hash(config, op kinds); non-trivial = >= 20 scan queries were checked after at least one flush/retire",
@@ -65,6 +65,20 @@ func genBound(r *core.Rand, keys []string) []byte {
 		return bytes.Repeat([]byte{0xff}, 8)
 	}
 	return k[:1+r.Intn(len(k))]
+}
+
+// prePosition leaves the iterator, in half of the calls, somewhere inside its run before the Seek under test:
+// where a Seek lands must not depend on where the iterator stood.
+func prePosition(r *core.Rand, it iterator.Iterator) string {
+	if it == nil || r.Bool() {
+		return ""
+	}
+	it.SeekToFirst()
+	n := r.Intn(4)
+	for i := 0; i < n && it.Valid(); i++ {
+		it.Next()
+	}
+	return fmt.Sprintf("SeekToFirst + %d Next, then ", n)
 }
 
 func scanBattery(x *kv.Exec, getIter func() (iterator.Iterator, error), getRange func(a, b []byte) (iterator.Iterator, error), m *kv.Model, tag string, nq int) {
@@ -111,20 +125,22 @@ func scanBattery(x *kv.Exec, getIter func() (iterator.Iterator, error), getRange
 		case 1: // Seek on the full iterator
 			t := genBound(r, keys)
 			it, _ := getIter()
+			pre := prePosition(r, it)
 			it.Seek(t)
 			if msg := kv.CheckScan(kv.Drain(it, 1<<20), m, nil, nil, t); msg != "" {
-				fail(fmt.Sprintf("Seek(%s) + Next run: %s", kv.Q(t), msg))
+				fail(fmt.Sprintf("%sSeek(%s) + Next run: %s", pre, kv.Q(t), msg))
 			}
 		case 2: // Seek inside a range
 			a, b, t := genBound(r, keys), genBound(r, keys), genBound(r, keys)
 			it, _ := getRange(a, b)
+			pre := prePosition(r, it)
 			it.Seek(t)
 			from := t
 			if bytes.Compare(a, t) > 0 {
 				from = a
 			}
 			if msg := kv.CheckScan(kv.Drain(it, 1<<20), m, a, b, from); msg != "" {
-				fail(fmt.Sprintf("range [%s,%s) Seek(%s) + Next run: %s", kv.Q(a), kv.Q(b), kv.Q(t), msg))
+				fail(fmt.Sprintf("range [%s,%s) %sSeek(%s) + Next run: %s", kv.Q(a), kv.Q(b), pre, kv.Q(t), msg))
 			}
 		case 3: // SeekToLast, full or bounded
 			var a, b []byte
